@@ -11,7 +11,7 @@ import sys
 import time
 
 prop, mk = sys.argv[1], sys.argv[2]
-src = '/tmp/seed/%s.out%s' % (prop, ('2' if mk in ('m3', 'm4') else '3' if mk in ('m5', 'm6') else '5' if mk in ('m7', 'm8') else ''))
+src = '/tmp/seed/%s.out%s' % (prop, ('2' if mk in ('m3', 'm4') else '3' if mk in ('m5', 'm6') else '5' if mk in ('m7', 'm8') else '6' if mk in ('m9', 'm10') else ''))
 patch = os.path.join(src, mk + '.patch.diff')
 demo = os.path.join(src, mk + '.demo.rs')
 meta_txt = open(os.path.join(src, mk + '.meta.txt')).read() if os.path.exists(os.path.join(src, mk + '.meta.txt')) else ''
